@@ -222,26 +222,7 @@ theorem learns_at_most_existence (cfg : Cfg) (o : Opts) (now : Int) (m m' : Stor
       cases hv' : vis now (m.get a.key) with
       | none => rw [hv'] at hk; cases hk
       | some r' => rw [hv'] at hk; simp only at hk; have e := hk (Or.inr (hpp a h2).2); subst e; exact ⟨rfl, h2⟩
-  have hblocked : ∀ k, KV.blocked o m k now = KV.blocked o m' k now := by
-    intro k
-    unfold KV.blocked
-    congr 1
-    have hk := h k
-    cases hv : vis now (m.get k) with
-    | none =>
-      cases hv' : vis now (m'.get k) with
-      | none => rfl
-      | some r' => rw [hv, hv'] at hk; cases hk
-    | some r =>
-      cases hv' : vis now (m'.get k) with
-      | none => rw [hv, hv'] at hk; cases hk
-      | some r' =>
-        rw [hv, hv'] at hk; simp only at hk ⊢
-        by_cases hp : r.md.permitted o.loc o.int = true
-        · rw [← hk (Or.inl hp)]
-        · by_cases hp' : r'.md.permitted o.loc o.int = true
-          · rw [hk (Or.inr hp')]
-          · simp [hp, hp']
+  have hblocked : ∀ k, KV.blocked o m k now = KV.blocked o m' k now := blocked_lowEq h
   have hmod : ∀ k f, (KV.modify cfg.backend o m k now f).2 = (KV.modify cfg.backend o m' k now f).2 := by
     intro k f; unfold KV.modify; rw [hg k]; cases KV.get o m' k now <;> rfl
   have hput : ∀ x isNew, (KV.put cfg.backend o m x now isNew).2 = (KV.put cfg.backend o m' x now isNew).2 := by
@@ -289,6 +270,33 @@ theorem learns_at_most_existence (cfg : Cfg) (o : Opts) (now : Int) (m m' : Stor
   | clear => simp [KV.step]
   | evict k => simp [KV.step]
 
+/-- Whole histories: from two stores that are indistinguishable for the interface from time `t0` on (same visible
+    keys at every later time, same permitted records), every history of operations of that interface at
+    non-decreasing times gives the same results on both — it learns at most that the keys exist. -/
+theorem learns_at_most_existence_run (cfg : Cfg) (o : Opts) :
+    ∀ (ops : List (Op × Int)) (t0 : Int) (m m' : Store), m.NodupKeys → m'.NodupKeys →
+      lowEqFrom o.loc o.int t0 m m' → wellTimed t0 ops →
+      sameOuts (KV.run cfg o m ops) (KV.run cfg o m' ops) := by
+  intro ops
+  induction ops with
+  | nil => intro t0 m m' _ _ _ _; trivial
+  | cons x rest ih =>
+    intro t0 m m' hn hn' h ht
+    obtain ⟨op, now⟩ := x
+    obtain ⟨hle, _, hrest⟩ := ht
+    have hout := learns_at_most_existence cfg o now m m' hn hn' (h now hle) op
+    obtain ⟨h1, h2, h3⟩ := lowEq_step cfg o now t0 m m' hn hn' h hle op
+    unfold KV.run
+    simp only
+    refine ⟨?_, ih now _ _ h2 h3 h1 hrest⟩
+    unfold sameOut
+    split
+    · rename_i l l' e1 e2; rw [e1, e2] at hout; exact hout
+    · rename_i a b hne
+      split at hout
+      · rename_i l l' e1 e2; exact (hne l l' e1 e2).elim
+      · exact hout
+
 /-! ### Non-vacuity -/
 
 /-- Two stores that differ in the content, expiry and crown-jewel flag of a secret record are indistinguishable
@@ -309,6 +317,23 @@ example :
         have e2 : ("k/public" == k) = false := by simp [h2]
         simp [Store.get, List.find?, e1, e2, vis]
   · intro h; have := h "k/secret"; simp [Store.get, vis, Meta.valid, Meta.permitted] at this
+
+/-- … and they stay indistinguishable at every later time (hypothesis of `learns_at_most_existence_run`) when the
+    hidden records do not differ in when they disappear. -/
+example :
+    let m : Store := [{ key := "k/secret", md := { secret := true }, fields := [("S", .prim (.str "password-1"))] },
+                      { key := "k/public", fields := [("S", .prim (.str "hello"))] }]
+    let m' : Store := [{ key := "k/secret", md := { secret := true, crown := true, created := 5 }, fields := [("S", .prim (.str "password-2"))] },
+                       { key := "k/public", fields := [("S", .prim (.str "hello"))] }]
+    lowEqFrom false false 10 m m' := by
+  intro t _ k
+  by_cases h1 : "k/secret" = k
+  · subst h1; simp [Store.get, vis, Meta.valid, Meta.permitted]
+  · by_cases h2 : "k/public" = k
+    · subst h2; simp [Store.get, vis, Meta.valid, Meta.permitted]
+    · have e1 : ("k/secret" == k) = false := by simp [h1]
+      have e2 : ("k/public" == k) = false := by simp [h2]
+      simp [Store.get, List.find?, e1, e2, vis]
 
 /-- A non-privileged interface that hits a secret record through its cache is refused (hypothesis-free instance of
     `outputs_permitted` where the interesting branch is taken). -/
